@@ -375,7 +375,9 @@ main(void)
         const unsigned q1 = qsize();
         _Bool rejected = 0;
 #if ENTRY == 7
-        rejected = null_list || n > IMB_MAX_BURST_SIZE || (unsigned) N - q0 < n || !well_formed || g_invalid_verdicts > 0 ||
+        /* a suite id with ONE corrupted word is a mismatch the call must reject (independent of what the library reported) */
+        const _Bool id_corrupt = bad_id < n && bad_id < IMB_MAX_BURST_SIZE && !(bad_i < n && bad_i == bad_id);
+        rejected = null_list || n > IMB_MAX_BURST_SIZE || (unsigned) N - q0 < n || !well_formed || g_invalid_verdicts > 0 || id_corrupt ||
                    (st.imb_errno == IMB_ERR_BURST_SUITE_ID);
         if (rejected) {
                 /* C12: misuse of the burst call => nothing submitted, ring untouched */
